@@ -22,9 +22,17 @@ pub struct Scenario {
     pub hist: usize,
     pub prompt: usize,
     pub script: Vec<HAction>,
+    /// handler form (RecProc::pform)
+    pub pform: u8,
     pub setup: Vec<Op>,
     /// None = the target is build() itself
     pub target: Option<Vec<Op>>,
+}
+
+fn mkproc(sc: &Scenario) -> RecProc {
+    let mut p = RecProc::new(sc.script.clone(), sc.set.parse_fn());
+    p.pform = sc.pform;
+    p
 }
 
 fn bytes(s: &str) -> Vec<Op> {
@@ -40,7 +48,7 @@ pub fn corpus() -> Vec<Scenario> {
     let up = "\x1b[A";
     let down = "\x1b[B";
     let mut add = |name: &str, class: &'static str, set: SetKind, script: Vec<HAction>, setup: Vec<Op>, target: Vec<Op>| {
-        v.push(Scenario { name: format!("{}/{}", set.name(), name), class, set, cmd: 40, hist: 64, prompt: 0, script, setup, target: Some(target) });
+        v.push(Scenario { name: format!("{}/{}", set.name(), name), class, set, cmd: 40, hist: 64, prompt: 0, script, pform: 0, setup, target: Some(target) });
     };
     let silent: Vec<HAction> = vec![];
     let writes = |calls: Vec<WCall>| vec![HAction { writes: calls, set_prompt: None, fail: false, reject: false }];
@@ -114,7 +122,7 @@ pub fn corpus() -> Vec<Scenario> {
     add("help-raw", "help", SetKind::Raw, silent.clone(), bytes("help"), bytes("\r"));
     add("help-raw-command", "help", SetKind::Raw, silent.clone(), bytes("x --help"), bytes("\r"));
     // ---- build()
-    v.push(Scenario { name: "raw/build".into(), class: "build", set: SetKind::Raw, cmd: 8, hist: 8, prompt: 3, script: vec![], setup: vec![], target: None });
+    v.push(Scenario { name: "raw/build".into(), class: "build", set: SetKind::Raw, cmd: 8, hist: 8, prompt: 3, script: vec![], pform: 0, setup: vec![], target: None });
     v
 }
 
@@ -138,7 +146,7 @@ fn fault_free<C: Autocomplete + Help>(sc: &Scenario) -> FaultFree {
     let mut hist = vec![0u8; sc.hist].into_boxed_slice();
     let sink = MonSink::new();
     let c_before_build = sink.0.borrow().calls;
-    let mut rig: Rig<'_, C> = Rig::build(&mut cmd, &mut hist, sc.prompt, false, sink.clone(), RecProc::new(sc.script.clone(), sc.set.parse_fn())).expect("fault-free build");
+    let mut rig: Rig<'_, C> = Rig::build(&mut cmd, &mut hist, sc.prompt, false, sink.clone(), mkproc(sc)).expect("fault-free build");
     if sc.target.is_none() {
         let c1 = sink.0.borrow().calls;
         return FaultFree { c0: c_before_build, c1, posts: vec![] };
@@ -180,7 +188,7 @@ fn one_position<C: Autocomplete + Help>(sc: &Scenario, ff: &FaultFree, k: usize,
         }
         return;
     }
-    let mut rig: Rig<'_, C> = Rig::build(&mut cmd, &mut hist, sc.prompt, false, sink.clone(), RecProc::new(sc.script.clone(), sc.set.parse_fn())).expect("build");
+    let mut rig: Rig<'_, C> = Rig::build(&mut cmd, &mut hist, sc.prompt, false, sink.clone(), mkproc(sc)).expect("build");
     for op in &sc.setup {
         apply(&mut rig, op).expect("setup runs with a working sink");
     }
@@ -418,6 +426,23 @@ pub fn run(args: &Args, rep: &mut Report) {
             }
         }
     }
+    // every scenario whose target runs a handler, again with the handler given as a plain function (blanket impl) and,
+    // where expressible, through RawCommand::processor(closure): an error must survive these wrappers too
+    let base = scs.clone();
+    for s in &base {
+        if !s.script.is_empty() {
+            let mut t = s.clone();
+            t.pform = 2;
+            t.name = format!("{}/fn-handler", s.name);
+            scs.push(t);
+            if s.set == SetKind::Raw && s.script.iter().all(|a| !a.reject) {
+                let mut t = s.clone();
+                t.pform = 1;
+                t.name = format!("{}/closure-processor", s.name);
+                scs.push(t);
+            }
+        }
+    }
     let n = scs.len() as u64;
     run_cases(args, "C14", n, rep, &mut |i, rep| {
         if !mine(args, i) {
@@ -457,7 +482,7 @@ pub fn run_random(args: &Args, rep: &mut Report) {
         }
         let k = rng.below(ops.len() - 1);
         // target: ops from k until (and including) the first one that makes the sink work, at most 8
-        let sc_probe = Scenario { name: String::new(), class: "random", set: cfg.set, cmd: cfg.cmd, hist: cfg.hist, prompt: cfg.prompt, script: cfg.script.clone(), setup: ops[..k].to_vec(), target: Some(ops[k..(k + 8).min(ops.len())].to_vec()) };
+        let sc_probe = Scenario { name: String::new(), class: "random", set: cfg.set, cmd: cfg.cmd, hist: cfg.hist, prompt: cfg.prompt, script: cfg.script.clone(), pform: cfg.pform, setup: ops[..k].to_vec(), target: Some(ops[k..(k + 8).min(ops.len())].to_vec()) };
         let tlen = crate::with_set!(cfg.set, first_output_len, &sc_probe);
         let tlen = match tlen {
             Some(t) => t,
@@ -482,7 +507,7 @@ fn first_output_len<C: Autocomplete + Help>(sc: &Scenario) -> Option<usize> {
     let mut cmd = vec![0u8; sc.cmd].into_boxed_slice();
     let mut hist = vec![0u8; sc.hist].into_boxed_slice();
     let sink = MonSink::new();
-    let mut rig: Rig<'_, C> = Rig::build(&mut cmd, &mut hist, sc.prompt, false, sink.clone(), RecProc::new(sc.script.clone(), sc.set.parse_fn())).ok()?;
+    let mut rig: Rig<'_, C> = Rig::build(&mut cmd, &mut hist, sc.prompt, false, sink.clone(), mkproc(sc)).ok()?;
     for op in &sc.setup {
         apply(&mut rig, op).ok()?;
     }
